@@ -90,7 +90,15 @@ func verifSameFile(a, b *zoekt.FileMatch) bool {
 // one and every file it contains is identical to its unlimited version.
 func H_C21_shardLimits() {
 	verifrt.ClockConcrete()
-	d := verifLoad(verifWriteShard(verifThreeRepos(), "verif-compound.zoekt"))
+	// some repositories / paths are hidden (tombstones): limits must not bring hidden files back
+	b := verifThreeRepos()
+	for i := 0; i < 3; i++ {
+		b.repoList[i].Tombstone = verifrt.Bool("tomb")
+	}
+	if verifrt.Bool("pathTomb") {
+		b.repoList[1].FileTombstones = map[string]struct{}{"a.go": {}}
+	}
+	d := verifLoad(verifWriteShard(b, "verif-compound.zoekt"))
 	k := verifrt.Concretize(verifrt.IntRange("query", 0, 3))
 	chunks := verifrt.Bool("chunks")
 	full, err := d.Search(context.Background(), verifC21Query(k), &zoekt.SearchOptions{ChunkMatches: chunks})
